@@ -1085,7 +1085,9 @@ class Interp(object):
                 o = node.operand
                 if isinstance(o, ast.Compare) and len(o.ops) == 1 and isinstance(o.ops[0], ast.In):
                     # pony turns not (x in S) into x NOT IN S (same rendering as the `not in` operator)
-                    return self.compare(ast.NotIn(), self.ev(o.left, env), self.ev(o.comparators[0], env), o.left, o.comparators[0], env)
+                    self._plain_not_in = True
+                    try: return self.compare(ast.NotIn(), self.ev(o.left, env), self.ev(o.comparators[0], env), o.left, o.comparators[0], env)
+                    finally: self._plain_not_in = False
                 v = self.ev(node.operand, env)
                 if v is None and not self.row_flag_pending(node.operand):
                     # a missing VALUE (attribute, method result, coalesce, conditional ...) is falsy, so its negation is true:
@@ -1157,6 +1159,7 @@ class Interp(object):
                 if b == 0: return self.pyraise('division by zero')
                 if isinstance(a, Decimal) or isinstance(b, Decimal): raise Unsupported('decimal floordiv/mod')
                 py = a // b if opn == 'FloorDiv' else a % b
+                if abs(a) >= 2 ** 62 or abs(b) >= 2 ** 62: raise Unsupported('operand beyond the 64-bit integer cast of the backend')
                 if ext: return py
                 isint = isinstance(a, int) and isinstance(b, int)
                 if opn == 'FloorDiv': lite = c_div(int(a), int(b)) if isint else a / b
@@ -1236,7 +1239,7 @@ class Interp(object):
                 if not nn and a is None:
                     self.sites.add('notin_subquery_nulls')
                     if 'notin_subquery_nulls' in self.dev: return True
-            r = self.contains(a, b, rnode, ignore_none=(opn == 'NotIn'))
+            r = self.contains(a, b, rnode, ignore_none=(opn == 'NotIn' and not getattr(self, '_plain_not_in', False)))
             return r if opn == 'In' else self.t_not(r)
         if a is U or b is U: raise Unsupported('comparison of UNKNOWN')
         if opn in ('Eq', 'NotEq') and ((lnode is not None and self.is_none_literal(lnode)) or
@@ -1344,6 +1347,7 @@ class Interp(object):
                 if 'slice_stop_m1' in self.dev: return s
             return s[lo:hi]
         i = self.ev(sl, env)
+        if i is None and s is not None: return self.pyraise('string index None')     # python: TypeError -> the row is free
         if i is None or s is None: return self.nullprop()
         if isinstance(i, bool) or not isinstance(i, int): raise Unsupported('index type')
         try: return s[i]
@@ -1698,7 +1702,9 @@ def canon(v):
 def approx(a, b):
     if a == b: return True
     if isinstance(a, (int, float)) and isinstance(b, (int, float)) and not isinstance(a, bool):
-        return abs(a - b) <= 1e-9 * max(abs(a), abs(b))
+        # relative tolerance, plus an absolute one: Decimal/float arithmetic is done in binary REAL arithmetic by sqlite and
+        # projected expressions are not quantized, so an exact 0 comes back as 5e-15
+        return abs(a - b) <= 1e-9 * max(abs(a), abs(b)) or abs(a - b) <= 1e-9
     if isinstance(a, tuple) and isinstance(b, tuple) and len(a) == len(b):
         if a and a[0] == 'gc' and isinstance(b, str): return False
         return all(approx(x, y) for x, y in zip(a, b))
@@ -2206,6 +2212,9 @@ def reference(program, mirror, dev=()):
                 it.sites.add('aggr_optimize')
                 if 'aggr_optimize' in it.dev:
                     tree, aggregated = rew[0], True
+                    if any(isinstance(n, ast.Compare) and any(isinstance(c, (ast.List, ast.Tuple)) and not c.elts for c in n.comparators)
+                           for n in ast.walk(tree0)):
+                        it.unpredictable = True      # `x in ()` is rendered as 0 = 1: an aggregate operand vanishes, the join stays
                     it.leftjoin_targets = rew[1]
                     it.null_item_ok, it.rewritten = True, True
                     it.tenv = {}
@@ -2245,8 +2254,11 @@ def reference(program, mirror, dev=()):
                 var, pkn = g0.target.id, it.schema.pk(g0.iter.id)
                 elts = tree.elt.elts if isinstance(tree.elt, ast.Tuple) else [tree.elt]
                 direct = {e.attr for e in elts if isinstance(e, ast.Attribute) and isinstance(e.value, ast.Name) and e.value.id == var}
+                plain = not any(isinstance(x, (ast.GeneratorExp, ast.Lambda)) or (isinstance(x, ast.Call) and isinstance(x.func, ast.Name)
+                                and x.func.id in AGGS + ('len', 'exists', 'select')) or (isinstance(x, ast.Attribute) and x.attr in ('count',))
+                                for x in ast.walk(tree.elt)) and aggr_opt_rewrite(it, tree) is None
                 if any(isinstance(e, ast.Name) and e.id == var for e in elts) or set(pkn) <= direct: rr.mode = 'bag'
-                else: rr.no_dups = True
+                elif plain: rr.no_dups = True
             rr._rows, rr._tree, rr._it, rr._is_entity = rows, tree, it, is_entity
     except RecursionError:
         raise Unsupported('recursion')
@@ -2326,7 +2338,8 @@ def make_order_check(rr, step, program):
             for (f, d), x, y in zip(keyfuncs, a, b):
                 if isinstance(x, tuple) and x and x[0] == '@': x, y = x[2], y[2]
                 try:
-                    if x == y or approx(x, y): continue
+                    if x == y and not (isinstance(x, float) or isinstance(y, float)): continue
+                    if x == y or approx(x, y): break            # equal up to rounding noise: the database orders them by the noise
                     if (x < y) != (not d): return 'rows %d,%d out of order: %r then %r (desc=%s)' % (i, i + 1, a, b, d)
                 except TypeError: return None
                 break
